@@ -532,6 +532,42 @@ class Fn:
                 return {"kind": "place", "place": p2, "ty": self.locals[p2["l"]]["ty"], "str": self.place_str(p2), "block": bi}
         return {"kind": "other", "rv": rv}
 
+    def constraints_threaded(self, b, _depth=0):
+        """constraints(b), plus what a tested *flag* stands for: where a constraint is a switch on a bool local all of whose
+        assignments are constants (`matches!(..)`, a named `a && b`), the flag has the tested value only if the last
+        assignment executed was one of that value - so whatever constrains every such assignment constrains b as well."""
+        out = list(self.constraints(b))
+        if _depth > 2:
+            return out
+        for S, al in list(out):
+            si = self.switch_info(S)
+            defs = None
+            if si["kind"] == "multi":
+                defs = si.get("defs")
+            elif si["kind"] == "place" and not si["place"]["p"] and "bool" in self.locals[si["place"]["l"]]["ty"]:
+                defs = self.whole_defs(si["place"]["l"])
+            if not defs or len(defs) < 2:
+                continue
+            if not all(k != "t" and st["rv"]["k"] == "use" and isinstance(st["rv"]["a"], dict) and st["rv"]["a"].get("int") in (0, 1) for (_b, k, st) in defs):
+                continue
+            truth = 1 if 0 not in al else 0
+            setters = [b_ for (b_, _k, st) in defs if st["rv"]["a"]["int"] == truth]
+            if not setters:
+                continue
+            common = None
+            for b_ in setters:
+                cs = {(S2, tuple(al2)) for S2, al2 in self.constraints_threaded(b_, _depth + 1)}
+                # an or-pattern reaches one setter from several tests of the same value: none dominates, all decide
+                dec = {}
+                for S2, lab in self.deciding(b_):
+                    dec.setdefault(S2, []).append(lab)
+                cs |= {(S2, tuple(sorted(labs, key=str))) for S2, labs in dec.items()}
+                common = cs if common is None else common & cs
+            for S2, al2 in sorted(common or (), key=str):
+                if (S2, list(al2)) not in out and S2 != S:
+                    out.append((S2, list(al2)))
+        return out
+
     # ------------------------------------------------------------------ expression trees
     def expr(self, o, depth=12, _seen=None):
         """Reconstruct a pure expression tree for an operand.
